@@ -178,6 +178,59 @@ theorem dft2_out_buffer_holds_defining_sum (f : Arr ℂ) (αr αc : ℝ) (M N : 
   ⟨dft2 f αr αc M N shr shc offr offc unitary, (dft2_out_buffer f αr αc M N shr shc offr offc unitary b).2.2.1 hc ha,
     fun u v => dft2_eq_defining_sum f αr αc M N shr shc offr offc unitary u v⟩
 
+/-- **`idft2` writing into a caller-supplied buffer.** `idft2(F, …, out=b)` hands `b` to `dft2` (regenerated: `Gen.fwIdft2PassesOut`),
+so the same two checks decide — `TypeError` for a dtype that cannot hold complex values, `ValueError` for a buffer `np.dot(out=)` does
+not accept (`dotAccepts`, NumPy's contract by hand, TRUSTED, compared with the real outcome by the op `c01.iout`) — and a buffer passing
+both, whatever it held, ends up holding exactly the values `idft2` returns without `out=` **after** the in-place conjugation and the
+in-place division (`np.conj(X, out=X)`, `np.divide(X, n, out=X)`: regenerated flags `Gen.fwIdft2ConjInPlace`,
+`Gen.fwIdft2DivideInPlace`), for both normalisation flags, and is the returned object. A source that divides into a fresh array
+(`np.divide(F, N)` / `F / N`) or does not pass `out` on changes a regenerated flag and this proof stops checking. -/
+theorem idft2_out_buffer (F : Arr ℂ) (αr αc : ℝ) (M N : ℤ) (shr shc : ℝ) (unitary : Bool) (b : OutBuf ℂ) :
+    (b.dtype.canCastComplex = false → idft2Out F αr αc M N shr shc unitary (some b) = OutCall.typeError) ∧
+    (b.dtype.canCastComplex = true → dotAccepts b M N = false →
+      idft2Out F αr αc M N shr shc unitary (some b) = OutCall.valueError) ∧
+    (b.dtype.canCastComplex = true → dotAccepts b M N = true → idft2Out F αr αc M N shr shc unitary (some b)
+      = OutCall.ok (idft2 F αr αc M N shr shc unitary) (some (idft2 F αr αc M N shr shc unitary)) true) ∧
+    idft2Out F αr αc M N shr shc unitary none = OutCall.ok (idft2 F αr αc M N shr shc unitary) none false := by
+  refine ⟨fun h => ?_, fun h h' => ?_, fun h h' => ?_, ?_⟩
+  · simp [idft2Out, dft2Out, Gen.fwIdft2PassesOut, Gen.fwOutRefused, h]
+  · simp [idft2Out, dft2Out, Gen.fwIdft2PassesOut, Gen.fwOutRefused, h, h']
+  · cases unitary <;>
+      simp [idft2Out, dft2Out, idft2, Gen.fwIdft2PassesOut, Gen.fwIdft2ConjInPlace, Gen.fwIdft2DivideInPlace, Gen.fwIdft2Offset,
+        Gen.fwOutRefused, Gen.fwOutResultIsBuffer, h, h']
+  · cases unitary <;>
+      simp [idft2Out, dft2Out, idft2, Gen.fwIdft2PassesOut, Gen.fwIdft2ConjInPlace, Gen.fwIdft2DivideInPlace, Gen.fwIdft2Offset]
+
+/-- the same set of buffers as for `dft2` is written: `idft2(out=b)` returns normally exactly when `dft2(out=b)` does -/
+theorem idft2_out_accepted_iff (F : Arr ℂ) (αr αc : ℝ) (M N : ℤ) (shr shc : ℝ) (unitary : Bool) (b : OutBuf ℂ) :
+    (∃ r a t, idft2Out F αr αc M N shr shc unitary (some b) = OutCall.ok r a t) ↔
+      b.dtype = BufDtype.complex128 ∧ b.writeable = true ∧
+        ∃ s t, b.shape = [M, N] ∧ b.strides = [s, t] ∧ (N = 1 ∨ t = 1) ∧ (M = 1 ∨ s = N) := by
+  rw [← dft2_out_accepted_iff F αr αc M N shr shc 0 0 unitary b]
+  obtain ⟨h1, h2, h3, -⟩ := idft2_out_buffer F αr αc M N shr shc unitary b
+  obtain ⟨g1, g2, g3, -⟩ := dft2_out_buffer F αr αc M N shr shc 0 0 unitary b
+  by_cases hc : b.dtype.canCastComplex = true
+  · by_cases ha : dotAccepts b M N = true
+    · rw [h3 hc ha, g3 hc ha]; simp
+    · have ha' : dotAccepts b M N = false := by simpa using ha
+      rw [h2 hc ha', g2 hc ha']
+  · have hc' : b.dtype.canCastComplex = false := by simpa using hc
+    rw [h1 hc', g1 hc']
+
+/-- … and the accepted buffer then holds the defining inverse sum (`idft2_eq_defining_sum`), factor `√|α_r α_c|` under the unitary
+flag and `1/(rows·cols of the input)` otherwise -/
+theorem idft2_out_buffer_holds_defining_sum (F : Arr ℂ) (αr αc : ℝ) (M N : ℤ) (shr shc : ℝ) (unitary : Bool)
+    (b : OutBuf ℂ) (hc : b.dtype.canCastComplex = true) (ha : dotAccepts b M N = true) :
+    ∃ g : Arr ℂ, idft2Out F αr αc M N shr shc unitary (some b) = OutCall.ok g (some g) true ∧
+      ∀ i j : ℤ, g.get i j =
+        (if unitary then ((Real.sqrt |αr * αc| : ℝ) : ℂ) else 1 / ((F.s0 * F.s1 : ℤ) : ℂ)) *
+        ∑ u ∈ range F.s0.toNat, ∑ v ∈ range F.s1.toNat, F.get u v *
+          Complex.exp ((2 * Real.pi * Complex.I) *
+            ((αr * (((u : ℤ) - F.s0 / 2 : ℤ) : ℝ) * (((i - M / 2 : ℤ) : ℝ) - shr)
+              + αc * (((v : ℤ) - F.s1 / 2 : ℤ) : ℝ) * (((j - N / 2 : ℤ) : ℝ) - shc) : ℝ) : ℂ)) :=
+  ⟨idft2 F αr αc M N shr shc unitary, (idft2_out_buffer F αr αc M N shr shc unitary b).2.2.1 hc ha,
+    fun i j => idft2_eq_defining_sum F αr αc M N shr shc unitary i j⟩
+
 /-- **linearity (sum).** The transform of a pointwise sum of two arrays of one shape is the sum of the transforms. -/
 theorem dft2_add (f g : Arr ℂ) (h0 : g.s0 = f.s0) (h1 : g.s1 = f.s1) (αr αc : ℝ) (M N : ℤ) (shr shc : ℝ)
     (offr offc : ℤ) (unitary : Bool) (u v : ℤ) :
